@@ -752,15 +752,18 @@ class History:
             if r is None or not alive(r, self.mod):
                 return False
             kind, di, value = a[1], a[2], a[3]
+            cross = len(a) > 4 and bool(a[4])  # a definition of the other class is allowed (the object layer does not check)
             kw = {}
             if di is not None:
                 ent = self._get(self.defs, di)
-                if ent is None or ent[1] != (kind == "enum"):
+                if ent is None or (ent[1] != (kind == "enum") and not cross):
                     return False
                 kw["definition"] = ent[0]
             if kind == "enum":
                 at = r.attributes.create("enum", **kw)
-                dt = kw["definition"].data_type if kw else self._get(self.edts, 0)
+                dt = kw["definition"].data_type if kw else None
+                if not isinstance(dt, self.reqif.EnumerationDataTypeDefinition):
+                    dt = self._get(self.edts, 0)
                 if dt is not None and value:
                     vals = list(dt.values)
                     at.values = [vals[i % len(vals)] for i in value] if vals else []
@@ -769,6 +772,20 @@ class History:
                 r.attributes.create("date", value=v, **kw) if v is not None else r.attributes.create("date", **kw)
             else:
                 r.attributes.create(kind, value=value, **kw)
+        elif name == "set_def_dt":
+            # re-type a definition: another data type of its pool (attributes keep their old choices), none, or — `cross` —
+            # a data type of the other class
+            ent = self._get(self.defs, a[0])
+            if ent is None:
+                return False
+            if a[1] is None:
+                if ent[0].data_type is not None:
+                    del ent[0].data_type
+            else:
+                dt = self._get(self.edts if a[1] == "edts" else self.dts, a[2])
+                if dt is None:
+                    return False
+                ent[0].data_type = dt
         elif name == "del_attr":
             r = self._get(self.reqs, a[0])
             if r is None or not alive(r, self.mod) or not len(r.attributes):
@@ -822,7 +839,18 @@ def gen_op(rng, h: History, risky: float) -> list:
     if ncont > 1:
         choices += ["move_folder", "del_folder"]
     choices += ["new_type", "new_def", "new_def", "new_dt", "new_edt", "new_mtype", "mod_type", "mod_field"]
+    if h.defs and risky:
+        choices += ["set_def_dt"]
     name = rng.choice(choices)
+    if name == "set_def_dt":
+        di = rng.randrange(len(h.defs))
+        is_enum = h.defs[di][1]
+        u = rng.random()
+        if u < 0.15:
+            return [name, di, None, None]
+        pool = ("edts" if is_enum else "dts") if u < 0.75 else ("dts" if is_enum else "edts")  # a quarter: other class
+        n = len(h.edts if pool == "edts" else h.dts)
+        return [name, di, pool, rng.randrange(n)] if n else [name, di, None, None]
     if name == "add_req":
         return [name, rng.randrange(ncont), text(), text(), text(), text(), text(False)]
     if name == "add_folder":
@@ -860,6 +888,9 @@ def gen_op(rng, h: History, risky: float) -> list:
         kind = rng.choice(KINDS)
         cands = [i for i, (_, e) in enumerate(h.defs) if e == (kind == "enum")]
         di = rng.choice(cands) if cands and rng.random() < 0.6 else None
+        cross = False
+        if h.defs and rng.random() < risky * 0.4:  # a definition of any class
+            di, cross = rng.randrange(len(h.defs)), True
         if kind == "enum" and di is None and rng.random() >= risky:
             if cands:
                 di = rng.choice(cands)
@@ -877,7 +908,7 @@ def gen_op(rng, h: History, risky: float) -> list:
             v = None if rng.random() < 0.2 else [rng.randrange(0, 2_000_000_000), rng.choice([0, 60, 120, -300, 330])]
         else:
             v = [rng.randrange(5) for _ in range(rng.randrange(0, 3))]
-        return [name, rng.randrange(nreq), kind, di, v]
+        return [name, rng.randrange(nreq), kind, di, v] + ([True] if cross else [])
     if name == "del_attr":
         return [name, rng.randrange(nreq), rng.randrange(8)]
     if name == "mod_type":
@@ -1101,6 +1132,8 @@ def _op_refs(op: list) -> list[tuple[int, str]]:
         return [(1, "types"), (3, "edts" if op[2] else "dts")]
     if n == "add_attr":
         return [(1, "reqs"), (3, "defs")]
+    if n == "set_def_dt":
+        return [(1, "defs")] + ([(3, op[2])] if op[2] else [])
     if n == "mod_type":
         return [(1, "mtypes")]
     return []
@@ -1175,6 +1208,22 @@ DIRECTED = [
     # plain definitions with and without data type, every kind under one definition
     [["new_type", "T", ""], ["new_dt", "DT"], ["new_def", 0, False, 0, "WithDT", "", False], ["new_def", 0, False, None, "NoDT", "d", False], _R,
      ["set_type", 0, 0], *[["add_attr", 0, k, d, v] for d in (0, 1) for k, v in (("string", "s"), ("bool", False), ("int", -7), ("real", 0.1), ("date", None))]],
+    # a definition is re-typed after a choice was made: the attribute keeps a value of the old data type
+    [["new_type", "T", ""], ["new_edt", "E1", [["a", ""], ["b", ""]]], ["new_edt", "E2", [["c", ""]]], ["new_def", 0, True, 0, "Sel", "", False], _R,
+     ["set_type", 0, 0], ["add_attr", 0, "enum", 0, [1]], ["set_def_dt", 0, "edts", 1], ["set_def_dt", 0, None, None], ["set_def_dt", 0, "edts", 0]],
+    # an enumeration definition under a simple attribute, alone and next to an enumeration attribute of the same definition
+    [["new_type", "T", ""], ["new_edt", "E", [["a", ""], ["b", "d"]]], ["new_def", 0, True, 0, "Sel", "", True], _R, ["set_type", 0, 0],
+     ["add_attr", 0, "string", 0, "s", True], ["add_attr", 0, "enum", 0, [0, 1]], ["add_attr", 0, "int", 0, 3, True]],
+    # links of the wrong class: enumeration attribute → plain definition; enumeration definition → plain data type; plain definition → enumeration data type
+    [["new_type", "T", ""], ["new_dt", "DT"], ["new_edt", "E", [["a", ""]]], ["new_def", 0, False, 0, "Plain", "", False], _R, ["set_type", 0, 0],
+     ["add_attr", 0, "enum", 0, [0], True]],
+    [["new_type", "T", ""], ["new_dt", "DT"], ["new_edt", "E", [["a", ""]]], ["new_def", 0, True, 0, "Sel", "", False], _R, ["set_type", 0, 0],
+     ["add_attr", 0, "enum", 0, [0]], ["set_def_dt", 0, "dts", 0]],
+    [["new_type", "T", ""], ["new_dt", "DT"], ["new_edt", "E", [["a", ""]]], ["new_def", 0, False, 0, "Plain", "", False], _R, ["set_type", 0, 0],
+     ["add_attr", 0, "string", 0, "s"], ["set_def_dt", 0, "edts", 0], ["add_attr", 0, "real", 0, 2.5]],
+    # both crash classes in one module: which exception is raised depends on the iteration order of the set
+    [["new_type", "T", ""], ["new_dt", "DT"], ["new_edt", "E", [["a", ""]]], ["new_def", 0, False, 0, "Plain", "", False], _R, ["set_type", 0, 0],
+     _R, ["set_type", 1, 0], ["add_attr", 0, "enum", None, []], ["add_attr", 1, "enum", 0, [0], True], ["add_attr", 1, "enum", None, [0]]],
     # nesting, removal and moves
     [["add_folder", 0, "F1"], ["add_folder", 1, "F2"], ["add_folder", 2, "F3"], ["add_folder", 0, "G"], _R, ["add_req", 1, "A", "", "", "", ""],
      ["add_req", 2, "B", "", "", "", ""], ["add_req", 3, "C", "", "", "", ""], ["add_req", 4, "D", "", "", "", ""], ["add_req", 3, "E", "", "", "", ""],
